@@ -61,6 +61,8 @@ VETTED_SET_ITER = {
     ("hypergraph.HyperGraph.neighborhood_compress_cost", "e_nodes"): _INT_NODES,
     ("hypergraph.HyperGraph.neighborhood_size", "neighborhood"): _INT_NODES + "; integer sum",
     ("hypergraph.HyperGraph.simple_distance", "region"): _INT_NODES,
+    ("pathfinders.path_basic.ContractionProcessor.subgraphs", "remaining"):
+        "set of the integer node numbers of ContractionProcessor.nodes",
     ("pathfinders.path_basic.ContractionProcessor.simplify_hadamard", "hadamards"):
         "set of frozensets of integer index numbers (ContractionProcessor.indmap renumbers indices): "
         "the hash of a frozenset of ints does not depend on PYTHONHASHSEED",
@@ -363,7 +365,7 @@ class Translator:
                                 taint[key] = k2
                                 changed = True
                 for key, kd in taint.items():
-                    if key.startswith("self."):
+                    if key.startswith("self.") and not kd.startswith(("uobj:", "cobj:")):
                         k.self_taint[key[5:]] = kd
             # dynamically stored callables / constructor parameters / sets
             for st in ast.walk(init.node):
@@ -537,11 +539,29 @@ class Translator:
                 if r and r[0] == "cls":
                     init = self.find_init(r[1])
                     if init is not None and init.seed_param:
-                        a = self.seed_arg(e, init, bound=True)
+                        try:
+                            a = self.seed_arg(e, init, bound=True)
+                        except ValueError:
+                            return None
+                        if any(kw.arg is None for kw in e.keywords) and a is None:
+                            return None
                         if a is not None:
                             k = self.kind_of(a, taint, fn)
                             if k in ("seed", "rng", "val"):
                                 return "obj:" + r[1].qual
+                            if isinstance(a, ast.Constant) and isinstance(a.value, int) and a.value is not None \
+                                    and not isinstance(a.value, bool):
+                                return "cobj:" + r[1].qual
+                            if k in ("grng", "gval") or (isinstance(a, ast.Constant) and a.value is None):
+                                return "uobj:" + r[1].qual
+                        else:
+                            # constructed here without a seed: an object of known class whose rng is
+                            # the global generator (or a constant default)
+                            d = init.seed_default
+                            if isinstance(d, ast.Constant) and d.value is None:
+                                return "uobj:" + r[1].qual
+                            if isinstance(d, ast.Constant) and isinstance(d.value, int):
+                                return "cobj:" + r[1].qual
         return None
 
     def find_init(self, c):
@@ -614,7 +634,7 @@ class Translator:
                 elif k and taint[key] != k:
                     # `seed = rng.randint(..)` style re-binding: remember both
                     order = ["seed", "rng", "val", "crng", "grng", "gval"]
-                    if k.startswith("obj:") or taint[key].startswith("obj:"):
+                    if "obj:" in k or "obj:" in taint[key]:
                         self.bad(fn.qual, "name %s bound to both %s and %s" % (key, taint[key], k))
                     elif order.index(k) > order.index(taint[key]) and k in ("grng", "gval"):
                         taint[key] = k
@@ -698,6 +718,10 @@ class Translator:
                 return PASS_NONE
             if k and k.startswith("obj:"):
                 return PASS_SEED
+            if k and k.startswith("uobj:"):
+                return PASS_NONE
+            if k and k.startswith("cobj:"):
+                return PASS_CONST
             self.bad(where, "unclassifiable expression `%s` in a seed position" % src(a))
             return PASS_NOTHING
 
@@ -766,9 +790,10 @@ class Translator:
                 if kb in ("val", "gval"):
                     mark(f.value)
                     continue
-                if kb and kb.startswith("obj:"):
+                if kb and kb.split(":")[0] in ("obj", "uobj", "cobj"):
                     mark(f.value)
-                    c = self.fns_class(kb[4:])
+                    c = self.fns_class(kb.split(":", 1)[1])
+                    objpass = {"obj": PASS_SEED, "uobj": PASS_NOTHING, "cobj": PASS_CONST}[kb.split(":")[0]]
                     ms = self.lookup_method(c, f.attr, hier=False) or self.lookup_method(c, f.attr)
                     if not ms:
                         if f.attr in c.self_dyn:
@@ -777,30 +802,39 @@ class Translator:
                             self.bad(where, "method %s of seeded object %s not found" % (f.attr, kb))
                             continue
                     for mth in ms:
-                        p = classify(call, mth, True, where) if mth.seed_param else PASS_SEED
+                        p = classify(call, mth, True, where) if mth.seed_param else objpass
                         add_call(mth, p, call)
                     continue
             # ---- call of a seeded object (e.g. gumbel generator)
             kc = tainted_kind(f)
-            if kc and kc.startswith("obj:"):
+            if kc and kc.split(":")[0] in ("obj", "uobj", "cobj"):
                 mark(f)
-                c = self.fns_class(kc[4:])
+                c = self.fns_class(kc.split(":", 1)[1])
+                objpass = {"obj": PASS_SEED, "uobj": PASS_NOTHING, "cobj": PASS_CONST}[kc.split(":")[0]]
                 ms = self.lookup_method(c, "__call__")
                 if not ms:
                     self.bad(where, "seeded object %s is called but has no __call__" % kc)
                 for mth in ms:
-                    add_call(mth, PASS_SEED, call)
+                    add_call(mth, objpass, call)
                 continue
             # ---- statically resolvable callee
             targets = []   # (Fn, bound, via)
             opaque = None
             if isinstance(f, ast.Name):
-                if f.id in nested:
+                lc = self.local_callable_candidates(fn, f.id) if f.id in self.local_names(fn) else []
+                if f.id in nested and not lc:
                     for e, k in tainted_args(call):
                         mark(e)
                     continue
                 r = self.resolve_in_fn(fn, f.id)
-                if r is None:
+                if lc:
+                    # a local name bound to one of several module-level functions
+                    # (e.g. {"basic": f1, "drift": f2}[mode] or functools.partial(f1, ...))
+                    targets += [(c, False) for c in lc]
+                    r = ("local", None)
+                if r is not None and r[0] == "local":
+                    pass
+                elif r is None:
                     if f.id in BUILTIN_NAMES and f.id not in self.local_names(fn):
                         ta = tainted_args(call)
                         if ta and f.id not in ("isinstance", "type", "id", "repr", "str", "print", "int"):
@@ -940,7 +974,7 @@ class Translator:
         for n in ast.walk(fn.node):
             if isinstance(n, ast.Name) and isinstance(n.ctx, ast.Load) and id(n) not in consumed:
                 k = taint.get(n.id)
-                if not k or k in ("val", "gval"):
+                if not k or k in ("val", "gval") or k.startswith(("uobj:", "cobj:")):
                     continue
                 par = getattr(n, "parent", None)
                 ok = False
@@ -985,6 +1019,35 @@ class Translator:
             else:
                 events.append(("hashiter", "%s %s" % (what, expr), line))
         fn.events = events
+
+    def local_callable_candidates(self, fn, name):
+        """module-level functions a local name may be bound to by plain assignments"""
+        out = []
+
+        def names_of(e):
+            if isinstance(e, ast.Name):
+                return [e.id]
+            if isinstance(e, ast.Dict):
+                return [x for v in e.values for x in names_of(v)]
+            if isinstance(e, ast.Subscript):
+                return names_of(e.value)
+            if isinstance(e, ast.IfExp):
+                return names_of(e.body) + names_of(e.orelse)
+            if isinstance(e, (ast.Tuple, ast.List)):
+                return [x for v in e.elts for x in names_of(v)]
+            if isinstance(e, ast.Call) and src(e.func) in ("functools.partial", "partial") and e.args:
+                return names_of(e.args[0])
+            return []
+        for n in ast.walk(fn.node):
+            if isinstance(n, ast.Assign) and len(n.targets) == 1 and isinstance(n.targets[0], ast.Name) \
+                    and n.targets[0].id == name:
+                for nm in names_of(n.value):
+                    if nm == name or nm in self.local_names(fn):
+                        continue
+                    r = self.resolve_name(fn.mod, nm)
+                    if r and r[0] == "fn" and r[1] not in out:
+                        out.append(r[1])
+        return out
 
     def uses_self_taint(self, mth):
         c = mth.cls
